@@ -466,6 +466,79 @@ def rule_D18(body):
     return body[:mm.start()] + new + body[end:], [("D18", re.sub(r"\s+", " ", body[mm.start():end])[:160], re.sub(r"\s+", " ", new)[:200])]
 
 
+def _rust_str(text):
+    return '"' + text.replace("\\", "\\\\").replace('"', '\\"') + '"'
+
+
+def _norm_tokens(text):
+    """token-level normal form of a quote! template: white-space is kept (as one blank) only between two word characters"""
+    t = re.sub(r"\s+", " ", text).strip()
+    t = re.sub(r"(?<![A-Za-z0-9_]) | (?![A-Za-z0-9_])", "", t)
+    return t
+
+
+def rule_D19(body):
+    """D19 (quote! as a function of its template and its interpolated values): `quote!(TEMPLATE)` / `quote! { TEMPLATE }` is written
+    `quoteN("TEMPLATE", &a, &b, ..)` where a, b, .. are the `#ident` interpolations of TEMPLATE in order of appearance (N of them) and the
+    template text is kept as a string in a token-level normal form (white-space kept only between two word characters).  `quoteN` is an uninterpreted
+    function in the template (result = Tok::Q(template, [tokens of a, tokens of b, ..])): WHAT proc_macro2 builds from the template is
+    dropped, THAT the result is determined by the template text and the interpolated values is kept.  Repetitions `#( .. )*` are not
+    supported (fail closed).  Every occurrence, at least one."""
+    applied = []
+    pos = 0
+    while True:
+        m = mask(body)
+        mm = re.compile(r"\bquote!\s*([({])").search(m, pos)
+        if not mm:
+            break
+        open_i = mm.end() - 1
+        close_i = match_close(m, open_i)            # index just after the closing bracket
+        inner = body[open_i + 1:close_i - 1]
+        if re.search(r"#\s*\(", inner):
+            raise LostAnchor("rule D19: quote! template with a repetition `#( .. )*`")
+        args = re.findall(r"#([A-Za-z_][A-Za-z0-9_]*)", inner)
+        tpl = _norm_tokens(inner)
+        new = f"quote{len(args)}({_rust_str(tpl)}" + "".join(f", &{a}" for a in args) + ")"
+        applied.append(("D19", re.sub(r"\s+", " ", body[mm.start():close_i])[:160], new[:200]))
+        body = body[:mm.start()] + new + body[close_i:]
+        pos = mm.start() + len(new)
+    if not applied:
+        raise LostAnchor("rule D19: no quote! found")
+    return body, applied
+
+
+def rule_D20(body):
+    """D20 (format! as a function of its template and its arguments): `format!("TEMPLATE")` whose arguments are all written inline
+    (`{ident}`) is written `formatN("TEMPLATE", &a, &b, ..)`; `formatN` is uninterpreted in the template (the text it returns is
+    fmt_text(template, [a, b, ..])).  The rendered characters are dropped; that the text is determined by the template and the values
+    is kept.  A format! with positional arguments or format specifications is not supported (fail closed).  Every occurrence, at
+    least one.  (Rule D2, which drops the text of error messages, is applied first where both are listed.)"""
+    applied = []
+    pos = 0
+    while True:
+        m = mask(body)
+        mm = re.compile(r"\bformat!\s*\(").search(m, pos)
+        if not mm:
+            break
+        open_i = mm.end() - 1
+        close_i = match_close(m, open_i)
+        inner = body[open_i + 1:close_i - 1].strip()
+        lit = re.fullmatch(r'"((?:[^"\\]|\\.)*)"', inner, re.S)
+        if not lit:
+            raise LostAnchor("rule D20: format! with arguments after the template (or a non-literal template)")
+        tpl = lit.group(1)
+        holes = re.findall(r"\{([^{}]*)\}", tpl.replace("{{", "").replace("}}", ""))
+        if any(not re.fullmatch(r"[A-Za-z_][A-Za-z0-9_]*", h) for h in holes):
+            raise LostAnchor("rule D20: format! hole that is not a plain inline identifier")
+        new = f'format{len(holes)}("{tpl}"' + "".join(f", &{a}" for a in holes) + ")"
+        applied.append(("D20", re.sub(r"\s+", " ", body[mm.start():close_i])[:160], new[:200]))
+        body = body[:mm.start()] + new + body[close_i:]
+        pos = mm.start() + len(new)
+    if not applied:
+        raise LostAnchor("rule D20: no format! found")
+    return body, applied
+
+
 def rule_D5b(body):
     """D5 (closure body): `.map(|x| EXPR)` with EXPR not a block is written `.map(|x| { EXPR })`, so that a ghost
     signature can be attached to the closure; same value.  Every occurrence, at least one."""
@@ -533,7 +606,7 @@ def rule_D4t(body):
     return pat.sub("range_from_element(", body), [("D4", "<Option<&SubtypeElements> as TryInto<PerVisibleRangeConstraints>>::try_into(", "range_from_element(")] * n
 
 
-RULES = {"D2": rule_D2, "D5": rule_D5, "D5c": rule_D5c, "D5m": rule_D5m, "D9": rule_D9, "D4t": rule_D4t, "D10": rule_D10, "D5b": rule_D5b, "D12": rule_D12, "D13": rule_D13, "D14": rule_D14, "D15": rule_D15, "D15s": rule_D15s, "D12s": rule_D12s, "D12m": rule_D12m, "D17": rule_D17, "D18": rule_D18}
+RULES = {"D2": rule_D2, "D5": rule_D5, "D5c": rule_D5c, "D5m": rule_D5m, "D9": rule_D9, "D4t": rule_D4t, "D10": rule_D10, "D5b": rule_D5b, "D12": rule_D12, "D13": rule_D13, "D14": rule_D14, "D15": rule_D15, "D15s": rule_D15s, "D12s": rule_D12s, "D12m": rule_D12m, "D17": rule_D17, "D18": rule_D18, "D19": rule_D19, "D20": rule_D20}
 
 
 class FnUnit:
